@@ -1,6 +1,7 @@
 package main
 
 import (
+	"go/token"
 	"fmt"
 	"go/types"
 	"sort"
@@ -443,6 +444,38 @@ func c03Serialiser(c *Ctx, r *Report, p *Prov, rule string) {
 							okSrc = true
 						}
 					}
+				}
+				if lit, isLit := constString(src); isLit && !okSrc {
+					// the three JSON literals written without the encoder: `null` where the value is
+					// nil, `true` / `false` where it is a bool of that truth value
+					okLit, why := false, "the constant "+fmt.Sprintf("%q", lit)+" is written to the output buffer"
+					for _, ft := range allFacts(call.Block()) {
+						switch lit {
+						case "null":
+							if x, _, isNil := nilCompare(ft.Cond); isNil {
+								if bo, ok := ft.Cond.(*ssa.BinOp); ok && (bo.Op == token.EQL) == ft.Pol {
+									if _, isPrm := peel(x).(*ssa.Parameter); isPrm {
+										okLit = true
+									}
+								}
+							}
+						case "true", "false":
+							if ex, ok := peel(ft.Cond).(*ssa.Extract); ok && ex.Index == 0 {
+								if ta, ok := ex.Tuple.(*ssa.TypeAssert); ok && isBoolType(ta.AssertedType) {
+									if _, isPrm := peel(ta.X).(*ssa.Parameter); isPrm && ft.Pol == (lit == "true") {
+										okLit = true
+									}
+								}
+							}
+							if ta, ok := peel(ft.Cond).(*ssa.TypeAssert); ok && !ta.CommaOk && isBoolType(ta.AssertedType) {
+								if _, isPrm := peel(ta.X).(*ssa.Parameter); isPrm && ft.Pol == (lit == "true") {
+									okLit = true
+								}
+							}
+						}
+					}
+					r.Check(okLit, rule, fmt.Sprintf("%s:Write(%s)", f.Name(), lit), c.InstrPos(i), "the JSON literal "+lit+" is written exactly where the value is "+lit, why+" where the value is not known to be "+lit)
+					return
 				}
 				r.Check(okSrc, rule, fmt.Sprintf("%s:Write", f.Name()), c.InstrPos(i), "writes bytes produced by json.Marshal or by the serialiser itself", "bytes from another source are written to the output buffer")
 			}
